@@ -1,5 +1,7 @@
 \* C02 views: the Extent view (point, range), the SpanCtxt view (every subset of trace id / span id / parent), the
-\* ThreadLocalCtxt snapshot; alone, under dedup / erasure, joined (both sides) with leaves repeating their keys, one more level.
+\* ThreadLocalCtxt snapshot (1 frame; 2-3 nested frames with overlapping keys, every resolution), the property views of
+\* Span and Metric events over 7 user property lists (some repeating evt_kind / span_name / metric_* keys);
+\* alone, under dedup / erasure, joined (both sides) with leaves repeating their keys, one more level (9 unary nodes, and_props).
 SPECIFICATION Spec
 CONSTANTS
     KeyOrder <- MC_KeyOrder
@@ -7,7 +9,9 @@ CONSTANTS
     NModes <- MC_NModes
     Seeds <- MC_Seeds
     Rights <- MC_Rights
-    Extend <- MC_Extend
+    Wraps <- MC_Wraps
+    SpanPrefix <- MC_SpanPrefix
+    MetricPrefix <- MC_MetricPrefix
     Which = "views"
     GrowLeaves <- MC_GrowLeaves
     MaxGrow = 0
